@@ -1,6 +1,7 @@
 // unit int_mul_toom3: integer/src/mul/toom_3.rs add_signed_mul_same_len (C01, C16): Toom-Cook-3, evaluation of
-// A(x)B(x) at 0, 1, -1, 2, inf (five third-size products through the dispatcher's contract, //@@ SIG proved in
-// int_mul_dispatch) and interpolation with the exact divisions by 6 and 2.
+// A(x)B(x) at 0, 1, -1, 2, inf (five third-size products through the dispatcher) and interpolation with the exact
+// divisions by 6 and 2; together with the dispatcher mul::add_signed_mul_same_len and karatsuba::add_signed_mul_same_len,
+// so that the whole recursion cycle is in one file and its termination is machine-checked.
 // Trusted: lib/mulalg_stubs.rs (Memory scratch allocator, Sign operators verified), MIN_LEN mirrored below.
 #![allow(unused_imports, unused_variables, dead_code, non_snake_case, unused_mut, unused_parens, unused_braces)]
 use vstd::prelude::*;
@@ -32,11 +33,28 @@ use super::*;
 }
 pub mod mul {
 use super::*;
-//@@ SIG integer/mul_algos/add_signed_mul_same_len.rs
+/// integer/src/mul/mod.rs:17,22 (mirrored)
+pub const THRESHOLD_SIMPLE: usize = 24;
+pub const THRESHOLD_KARATSUBA: usize = 192;
+// the recursion cycle dispatcher -> karatsuba / toom_3 -> dispatcher is verified HERE as a whole (all three are //@@ FN):
+// Verus checks the `decreases` clauses (factor length; dispatcher ranked above the algorithms), i.e. termination.
+//@@ FN integer/mul_algos/add_signed_mul_same_len.rs
 //@@ SIG integer/mul/mul_word_in_place.rs
 //@@ SIG integer/mul/add_mul_word_same_len_in_place.rs
 //@@ SIG integer/mul/add_mul_word_in_place.rs
 //@@ SIG integer/mul/sub_mul_word_same_len_in_place.rs
+pub mod simple {
+use super::super::*;
+//@@ SIG integer/mul_simple/add_signed_mul_same_len.rs
+}
+pub mod karatsuba {
+use super::super::*;
+use super::super::mul;
+/// integer/src/mul/karatsuba.rs:19 (mirrored)
+pub const MIN_LEN: usize = 3;
+// (also verified stand-alone in unit int_mul_karatsuba; debug assertion #4 `carry.abs() <= 1` = postcondition)
+//@@ FN integer/mul_algos/kara_add_signed_mul_same_len.rs drop_asserts=4
+}
 pub mod toom_3 {
 use super::super::*;
 use super::super::mul;
